@@ -605,6 +605,83 @@ def pairs_task(a):
     return tally.export()
 
 
+# ================================================================ engine TEMP
+TEMP_INSTANCES = 300
+TEMP_ATTEMPTS = 3000
+
+
+def _fresh_instance(k: int):
+    """A new object equal to expression k (no SymPy constructor cache is involved for the
+    library's classes; Rotation.D etc. may hand back the cached object, which is fine)."""
+    return pickle.loads(pickle.dumps(W.exprs[k]))  # noqa: S301
+
+
+def temp_pair(tally, a: int, b: int) -> None:
+    """One history over TEMPORARY objects: TEMP_INSTANCES separately built instances of
+    expression a are passed to perform_cached_doit and dropped; expression b is then built
+    until CPython hands out the address of a collected instance (the environment answer a
+    long-lived session produces sooner or later) and passed in, followed by a fresh b and
+    a fresh a.  Every call must return the unfolding of ITS expression."""
+    import gc  # noqa: PLC0415
+
+    case = {"engine": "temp", "mode": W.mode, "pair": [W.names[a], W.names[b]]}
+    d = W.fresh({})
+
+    def call(k, obj, label):
+        before = W.snapshot(d)
+        try:
+            res = ("ok", W.fn(obj, d))
+        except Exception as exc:  # noqa: BLE001
+            res = ("exc", exc)
+        verdict = W.judge(k, res)
+        tally.verdict(verdict)
+        tally.c["executions"] += 1
+        tally.c["nontrivial"] += 1
+        tally.c["temp_transitions"] += 1
+        if verdict is not None:
+            earlier = {a, b} - {k}
+            tags = W.tags(k, verdict["symptom"], before, earlier, False, False)
+            tally.violations.append(_violation(
+                "TEMP", k, verdict, [*tags, "temporary-objects"], case,
+                f"{label} in history [{TEMP_INSTANCES} x call(temporary {W.names[a]}), collect,"
+                f" call(temporary {W.names[b]} at a re-used address), call(temporary {W.names[b]}),"
+                f" call(temporary {W.names[a]})]",
+                {"directory_before_failing_call": W.describe(before)}))
+
+    try:
+        instances = [_fresh_instance(a) for _ in range(TEMP_INSTANCES)]
+        addresses = {id(x) for x in instances}
+        for n, x in enumerate(instances):
+            call(a, x, f"call {n + 1} with an instance of {W.names[a]}")
+        del instances, x
+        gc.collect()
+        rejected = []
+        reused = False
+        for _ in range(TEMP_ATTEMPTS):
+            y = _fresh_instance(b)
+            if id(y) in addresses:
+                reused = True
+                break
+            rejected.append(y)
+        del rejected
+        tally.outcomes["TEMP:address-reused" if reused else "TEMP:no-address-reuse(inconclusive)"] += 1
+        call(b, y, f"call with {W.names[b]} at the address of a collected {W.names[a]}")
+        call(b, _fresh_instance(b), f"second call with {W.names[b]}")
+        call(a, _fresh_instance(a), f"last call with {W.names[a]}")
+        del y
+    finally:
+        W.remove(d)
+    tally.c["temp_histories"] += 1
+
+
+def temp_task(a):
+    tally = Tally()
+    for b in range(W.n_core):
+        if b != a:
+            temp_pair(tally, a, b)
+    return tally.export()
+
+
 # ================================================================ engine SCHED
 def start_state(kind: str, a: int, b: int) -> dict:
     if kind == "empty":
@@ -974,6 +1051,9 @@ def replay(case) -> list:
                 tags = W.tags(k, verdict["symptom"], start, set(), False, False)
                 tally.violations.append(_violation("CRASH", k, verdict, tags, case,
                                                    "the traced writer itself", {}))
+    elif engine == "temp":
+        a, b = (W.index[n] for n in case["pair"])
+        temp_pair(tally, a, b)
     else:
         raise HarnessError(f"unknown engine {engine}")
     return tally.violations
@@ -1008,12 +1088,16 @@ def _crash_guarded(task):
     return _guard(crash_task, task)
 
 
+def _temp_guarded(task):
+    return _guard(temp_task, task)
+
+
 def _pairs_guarded(task):
     return _guard(pairs_task, task)
 
 
 _GUARDED = {seq_expand: _seq_expand_guarded, sched_config: _sched_guarded,
-            crash_task: _crash_guarded, pairs_task: _pairs_guarded}
+            crash_task: _crash_guarded, pairs_task: _pairs_guarded, temp_task: _temp_guarded}
 
 
 def _submit(pool, fn, tasks, chunk=1):
@@ -1099,6 +1183,10 @@ def main_job(job: dict) -> dict:
             for res in _consume(pairs_it):
                 merge(total, res)
             _phase("pairs done")
+            temp_it = _submit(pool, temp_task, list(range(W.n_core)))
+            for res in _consume(temp_it):
+                merge(total, res)
+            _phase("temp done")
         finally:
             if pool is not None:
                 pool.close()
@@ -1130,7 +1218,13 @@ def main_job(job: dict) -> dict:
         crash_states = total.c["crash_points"] + total.c["byte_prefixes"]
         extra_transitions = (
             total.c["sched_steps"] + total.c["crash_followup_calls"] + total.c["pairs_transitions"]
+            + total.c["temp_transitions"]
         )
+        summary["temporaries"] = {
+            "histories": total.c["temp_histories"], "instances_per_history": TEMP_INSTANCES,
+            "address_reused": total.outcomes.get("TEMP:address-reused", 0),
+            "inconclusive": total.outcomes.get("TEMP:no-address-reuse(inconclusive)", 0),
+        }
         summary["pairs"] = {
             "histories": total.c["pairs_histories"],
             "expressions_with_equal_python_hash": sorted(
